@@ -28,7 +28,7 @@ INAMES = {'add': 'iadd', 'sub': 'isub', 'mul': 'imul', 'or': 'ior', 'and': 'iand
 def run_tract(toks, rows_of, enc_elem):
     """Tractogram layer: `<id> T <op> ...` -> `<id>\t<ops>\t<step>;...\t` with
     step = <res>#<i>=<streamlines>|<data_per_point['c'] or ~>|<data_per_streamline['m'] or ~>&...
-    ops: tnew:<elems> ('-' = Tractogram()), tadd:i:j, tiadd:i:j, tcopy:i, tget:i:<idx>,
+    ops: tnew:<elems> ('-' = Tractogram()), tnew8:<elems> (float64 points), tadd:i:j, tiadd:i:j, tcopy:i, tget:i:<idx>,
     tset:i:k:v / tsetp:i:k:v / tsetm:i:k:v (element k of streamlines / data_per_point['c'] /
     data_per_streamline['m']),
     tsets:i:<idx>:v / tsetsp:i:<idx>:v, tiop:i:<fn> / tiopp:i:<fn> (in-place arithmetic),
@@ -38,11 +38,11 @@ def run_tract(toks, rows_of, enc_elem):
     import operator
     from nibabel.streamlines import Tractogram
 
-    def mk(estr):
+    def mk(estr, dtype='f4'):
         if estr == '-':
             return Tractogram()
         els = [[] if e == 'e' else [int(v) for v in e.split('.')] for e in estr.split('/')]
-        sl = [np.array([[v, v, v] for v in e], dtype='f4').reshape(len(e), 3) for e in els]
+        sl = [np.array([[v, v, v] for v in e], dtype=dtype).reshape(len(e), 3) for e in els]
         pp = [np.array([[v + 1000] for v in e], dtype='f4').reshape(len(e), 1) for e in els]
         ps = np.array([[(e[0] if e else 0) + 5000] for e in els], dtype='f4').reshape(len(els), 1)
         return Tractogram(sl, data_per_point={'c': pp}, data_per_streamline={'m': ps}, affine_to_rasmm=np.eye(4))
@@ -86,6 +86,8 @@ def run_tract(toks, rows_of, enc_elem):
             o = f[0]
             if o == 'tnew':
                 ts.append(mk(f[1]))
+            elif o == 'tnew8':
+                ts.append(mk(f[1], 'f8'))      # float64 points: np.dot(out=) works in place
             elif o == 'tadd':
                 ts.append(ts[int(f[1])] + ts[int(f[2])])
             elif o == 'tiadd':
